@@ -102,6 +102,12 @@ def gen_cases(tier, seed):
         cases.append({"kind": "dagmodel", "spec": gen.spec(nodes, edges, eattr={(u, v): {"len": l} for u, v, l in lengths}), "cons": gen.jl(cons), "cov": cov, "covlen": covlen,
                       "lengths": lengths, "k": rng.randint(1, 3), "cls": rng.choice(["kPathCover", "kPathCover", "kLeastAbsErrors"]),
                       "oo": rng.choice([{}, {"optimize_with_safe_paths": False, "optimize_with_safe_sequences": True}, {"optimize_with_safe_paths": True}, {"optimize_with_safe_paths": False}])})
+    # corpus: a constraint covered "100% by length" whose first edge has length 0 (need not lie on the covering path)
+    zl_e = [("p", "x"), ("x", "y"), ("w", "y"), ("y", "z")]; zl_len = [["p", "x", 1], ["x", "y", 0], ["w", "y", 1], ["y", "z", 3]]
+    for cls_ in ("kLeastAbsErrors",):
+        for oo_ in ({}, {"optimize_with_safe_paths": False, "optimize_with_safe_sequences": True}):
+            cases.append({"kind": "dagmodel", "spec": gen.spec(["p", "x", "w", "y", "z"], zl_e, eattr={(u, v): {"len": l} for u, v, l in zl_len}), "cons": [[["x", "y"], ["y", "z"]]],
+                          "cov": 1.0, "covlen": 1.0, "lengths": zl_len, "k": 2, "cls": cls_, "oo": oo_, "trusted": [["w", "y"], ["y", "z"]]})
     if tier == "thorough":
         for nodes, edges in small_scope_graphs(3, True):
             cases.append({"kind": "cyc", "spec": gen.spec(nodes, edges), "X": gen.jl(edges), "also_subsets": True})
@@ -346,14 +352,15 @@ def run_dagmodel(case, viol, obs):
         else:
             kw["subpath_constraints_coverage"] = case["cov"]
     if case["cls"] != "kPathCover":
-        kw.update(flow_attr="flow", weight_type=int, trusted_edges_for_safety=list(G.edges))
+        kw.update(flow_attr="flow", weight_type=int, trusted_edges_for_safety=(gen.tupl(case["trusted"]) if case.get("trusted") else list(G.edges)))
     r = M.safe_call(getattr(fp, case["cls"]), G, **kw)
     desc = f"{case['cls']} edges={list(G.edges)} cons={cons} cov={case['cov']} covlen={case['covlen']} lengths={case['lengths']} oo={case['oo']}"
     if r[0] != "ok":
         obs["c06.dagmodel_ctor_failed"] += 1
         return None, False
     m = r[1]; st = m.G
-    trusted = [tuple(e) for e in (m.trusted_edges_for_safety or [])]
+    # the trusted set is the CALLER's (the library may add constraint edges to its own copy; whether that is justified is what is judged here)
+    trusted = [tuple(e) for e in (kw.get("trusted_edges_for_safety") or list(G.edges))]
     L = {(u, v): l for u, v, l in case["lengths"]}
     P = [ref.path_edges(p) for p in ref.st_paths(st, [st.source], [st.sink])]
     def covers(pe, c):
